@@ -408,3 +408,50 @@ func C13ConcurrentSubscribe() {
 	sym.Assert(registrations() == 0, "remote-registration-left-behind")
 	sym.Reach("concurrent-subscribe-done")
 }
+
+// C13ForeignFrames: a client subscribed to (service, object, action) receives, on the same
+// connection, a frame of ANY type addressed to something else (another object of the service with
+// the same action id, another action, another service: at least one of the three differs): the
+// subscription is not disturbed: the frame is not delivered as an event, the channel stays open and
+// the next real event arrives. Then a second subscriber on the same connection comes and goes (its
+// slot is recycled): the first one still gets its events.
+func C13ForeignFrames() {
+	s := newZZStream()
+	e := net.NewEndPoint(s)
+	c := NewClient(NewChannel(e, DefaultCap()))
+	svc, obj, act := sym.U32("service"), sym.U32("object"), sym.U32("action")
+	_, events, err := c.Subscribe(svc, obj, act)
+	sym.Assert(err == nil, "foreign/subscribe-ok")
+	typ := sym.U8("foreign-type")
+	sym.Assume(typ >= 1)
+	sym.Assume(typ <= 8)
+	fs, fo, fa := sym.U32("foreign-service"), sym.U32("foreign-object"), sym.U32("foreign-action")
+	sym.Assume(sym.Or(fs != svc, sym.Or(fo != obj, fa != act)))
+	s.inject(net.NewMessage(net.NewHeader(typ, fs, fo, fa, sym.U32("foreign-id")), []byte{0xEE}))
+	sym.Quiesce()
+	got, closed := zzDrainNow(events)
+	sym.Assert(len(got) == 0, "foreign/frame-for-another-target-delivered")
+	sym.Assert(!closed, "foreign/subscription-closed-by-a-frame-for-another-target")
+	if closed {
+		return
+	}
+	// a second subscriber of another action comes and goes
+	if sym.Bool("second-subscriber-comes-and-goes") {
+		cancel2, ev2, err := c.Subscribe(svc, obj, act+1)
+		sym.Assert(err == nil, "foreign/second-subscribe-ok")
+		cancel2()
+		sym.Quiesce()
+		_, closed2 := zzDrainNow(ev2)
+		sym.Assert(closed2, "foreign/second-channel-not-closed-after-cancel")
+	}
+	data := sym.Bytes("event-data", 1)
+	s.inject(net.NewMessage(net.NewHeader(net.Event, svc, obj, act, 9), data))
+	sym.Quiesce()
+	got, closed = zzDrainNow(events)
+	sym.Assert(!closed, "foreign/subscription-closed")
+	sym.Assert(len(got) == 1, "foreign/event-after-foreign-frame-count")
+	if len(got) == 1 {
+		sym.Assert(sym.EqBytes(got[0], data), "foreign/event-payload")
+	}
+	sym.Reach("foreign-done")
+}
